@@ -280,6 +280,8 @@ func main() {
 				}
 				if part == "extension" {
 					judgeSrc(part, id+".junction-fault", tampered, desc+" [source fails once where the original file ended]", 5)
+					judgeSrc(part, id+".armor-tail-behind-whitespace", tampered, desc+" [original file armored, the appended bytes follow the END line and 1024 spaces / 1500 newlines]", 8)
+					judgeSrc(part, id+".armor-tail-behind-newlines", tampered, desc+" [original file armored, the appended bytes follow the END line and 1500 newlines]", 9)
 					if strings.TrimSpace(string(tampered[len(file):])) != "" { // whitespace after the END line is tolerated by the armor format
 						judgeSrc(part, id+".armor-tail", tampered, desc+" [original file armored, the appended bytes follow the END line]", 7)
 					}
@@ -301,12 +303,16 @@ func main() {
 					rd = strings.NewReader(refage.Armor(tampered))
 				case 7:
 					rd = strings.NewReader(refage.Armor(file) + string(tampered[len(file):]))
+				case 8:
+					rd = strings.NewReader(refage.Armor(file) + strings.Repeat(" ", 1024) + string(tampered[len(file):]))
+				case 9:
+					rd = strings.NewReader(refage.Armor(file) + strings.Repeat("\n", 1500) + string(tampered[len(file):]))
 				}
 				bs := 0
 				if src == 4 {
 					bs = -1
 				}
-				res := lab.Decrypt(rd, src == 6 || src == 7, bs, x.Id)
+				res := lab.Decrypt(rd, src >= 6, bs, x.Id)
 				c.Outcome(res.Class())
 				det := map[string]interface{}{"plaintext_len": n, "mutation": desc, "result": res.Class(), "decrypt_err": lab.ErrText(res.DecryptErr), "read_err": lab.ErrText(res.ReadErr), "released": len(res.Plain)}
 				switch {
